@@ -77,8 +77,9 @@ PlainItems ==
 
 FrameItems ==
   { Item("zero", <<0, 0, 0, 0>>, <<>>, 0),
-    Item("oversize", EncLen(MaxMsg + 1), <<MsgRequestIdentities>>, 0),
-    Item("huge", <<255, 255, 255, 255>>, <<MsgRequestIdentities>>, 0),
+    \* (what follows a bad header is a well-formed request: a server that read on would answer it)
+    Item("oversize", EncLen(MaxMsg + 1), Frame(ReqList), 0),
+    Item("huge", <<255, 255, 255, 255>>, Frame(ReqList), 0),
     Item("exactmax", EncLen(MaxMsg), <<99>>, MaxMsg - 1),
     Item("cut-frame", EncLen(10), <<MsgRequestIdentities, 0, 0>>, 0),
     Item("cut-header", <<0, 0>>, <<>>, 0) }
